@@ -119,6 +119,9 @@ func (h *harnessDb) runTxSafe(t *hTx) (obs string) {
 			obs = sb.String()
 		}
 	}()
+	if modes, ok := c16ModesOf(t); ok {
+		return h.c16RunTx(t, modes) // mixed transaction (store_c16s.go): per-operation context objects, swallowed refusals
+	}
 	return h.runTx(t)
 }
 
@@ -629,6 +632,13 @@ func runStoreX(o *opts) error {
 				}
 			} else {
 				t = g.genTxX()
+				// C16: context objects reused inside one transaction, callers that ignore a refusal, migrated entities
+				if profile == "c16" && r.chance(42) {
+					if sc := g.c16Mix(&t); sc != "" {
+						stats["mixed_tx"]++
+						stats["mixed_"+sc]++
+					}
+				}
 			}
 			applyUpdateSysRule(k, &t)
 			c.WriteString(" ")
@@ -658,6 +668,7 @@ func runStoreX(o *opts) error {
 				stats["tx_sys"]++
 			}
 		}
+		stats["obs_swallowed_refusals"] += strings.Count(ob, " NW:")
 		stats["obs_commit"] += strings.Count(ob, " COMMIT")
 		stats["obs_rollback"] += strings.Count(ob, " ROLLBACK")
 	}
